@@ -279,23 +279,45 @@ def buildIndexFromTree (v : Bytes → Bool) (root : PPath) (entries : List Entry
 
 /-! ### the delete phase of `update_working_tree` (non-directory case), as coded -/
 
-/-- One `CHANGE_DELETE` of `update_working_tree`: `if not validate_path(path): continue`; `os.lstat(full_path)`
+/-- `_lstat_tracked_path(tree_path, full_path, repo_path)`: `verify_leading_dirs(tree_path, [], repo_path)`
+(InvalidPathError → FileNotFoundError: "a leading directory is a symlink: not in the work tree"), then
+`os.lstat(full_path)`.  Used by the delete phase and by both pre-checks of `update_working_tree`. -/
+def lstatTracked (fs : FS) (root : PPath) (comps : List Name) : Except Errno Node :=
+  match verifyLeadingDirs fs root comps [] with
+  | .error .invalidPath => .error .enoent
+  | .error e => .error e
+  | .ok _ => lstat fs root comps
+
+/-- One `CHANGE_DELETE` of `update_working_tree`: `if not validate_path(path): continue`; the (guarded) lstat
 (FileNotFoundError: nothing to do); `_transition_to_absent` → `os.unlink(full_path)` for anything that is not a
-directory.  There is NO `verify_leading_dirs` here.  (The directory branch — listdir/rmdir/rmtree — and
+directory.  `guarded = false` is the code BEFORE the repair (bare `os.lstat(full_path)`, no leading-directory
+check), kept as a regression variant.  (The directory branch — listdir/rmdir/rmtree — and
 `_remove_empty_parents` are not modelled.) -/
-def deleteOld (v : Bytes → Bool) (root : PPath) (path : Bytes) (st : St) : Step :=
+def deleteOldG (guarded : Bool) (v : Bytes → Bool) (root : PPath) (path : Bytes) (st : St) : Step :=
   if validatePath v path = false then (st, none)
   else
     let comps := splitOn pathSep path
-    match lstat st.fs root comps with
+    match (if guarded then lstatTracked st.fs root comps else lstat st.fs root comps) with
     | .error .enoent => (st, none)
     | .error e => (st, some e)
     | .ok .dir => (st, none)
     | .ok _ => st.apply (sysUnlink st.fs root comps)
 
+/-- the delete step as the code stands now (the translator reads from the source whether the guard is there) -/
+def deleteOld (v : Bytes → Bool) (root : PPath) (path : Bytes) (st : St) : Step :=
+  deleteOldG deleteGuarded v root path st
+
 /-- the delete phase over the deleted paths of the old tree, in order; stops at the first error -/
-def deletePhase (v : Bytes → Bool) (root : PPath) : List Bytes → St → Step
+def deletePhaseG (guarded : Bool) (v : Bytes → Bool) (root : PPath) : List Bytes → St → Step
   | [], st => (st, none)
-  | p :: ps, st => (deleteOld v root p st).andThen (deletePhase v root ps)
+  | p :: ps, st => (deleteOldG guarded v root p st).andThen (deletePhaseG guarded v root ps)
+
+def deletePhase (v : Bytes → Bool) (root : PPath) (paths : List Bytes) (st : St) : Step :=
+  deletePhaseG deleteGuarded v root paths st
+
+/-- what the two pre-checks of `update_working_tree` look at for an old path: the guarded lstat (they go on to
+read the file only when it reports a regular file) -/
+def precheckOld (root : PPath) (path : Bytes) (fs : FS) : Except Errno Node :=
+  lstatTracked fs root (splitOn pathSep path)
 
 end Dulwich.Checkout
